@@ -6,9 +6,12 @@ C06 needs it: validity, PDU length calculation, the splitter `take_message`,
 An NLRI is abstract except for its encoded length `sz n` (= `compose_len()`,
 what drives the splitter); the non-MP path attributes are the list of their
 `compose_len()`s (`PaMap::bytes_len` is the sum, `PaMap::is_empty` is `[]`).
-The model follows the code after the three `fix:` commits of C06
+The model follows the code after the `fix:` commits of C06
 (`into_message` → `PduTooLarge` above `MAX_PDU`; split point never 0 and no
-remainder without NLRI; saturating `limit`).
+remainder without NLRI; saturating `limit`; `set_nexthop` refuses
+`NextHop::Unimplemented`; `set_nexthop_ll_addr` refuses a held next hop that is
+not `Unicast(V6)` / `Ipv6LL`; `from_attributes_builder` drops raw copies of
+MP_REACH_NLRI / MP_UNREACH_NLRI from the attribute map).
 
 Core Lean only (the driver links this file).
 -/
@@ -16,15 +19,20 @@ import Rc.Base
 
 namespace Rc.Builder
 
-/-- `bgp::nlri::nexthop::NextHop`, the variants with an encoding. -/
+/-- `bgp::nlri::nexthop::NextHop`, the variants with an encoding: `Unicast(V4)`,
+`Unicast(V6)`, `Multicast(V4)`, `Multicast(V6)`, `Ipv6LL`, `MplsVpnUnicast(_, V4)`,
+`MplsVpnUnicast(_, V6)`, `Empty`.  Unicast and Multicast are written alike but
+`set_nexthop_ll_addr` tells them apart. -/
 inductive NextHop where
-  | v4 | v6 | ll | vpn4 | vpn6 | empty
+  | v4 | v6 | m4 | m6 | ll | vpn4 | vpn6 | empty
   deriving DecidableEq, Repr
 
 /-- mirrors update_builder.rs `NextHop::compose_len` (length octet included) -/
 def NextHop.composeLen : NextHop → Nat
   | .v4 => 1 + 4
   | .v6 => 1 + 16
+  | .m4 => 1 + 4
+  | .m6 => 1 + 16
   | .ll => 1 + 32
   | .vpn4 => 1 + (8 + 4)
   | .vpn6 => 1 + (8 + 16)
@@ -240,9 +248,9 @@ def setMpNexthop (b : B N) : NextHopArg → Option (B N)
 
 /-- mirrors `set_nexthop_ll_addr` (update_builder.rs:180, 900) after the fix: without
 an MP_REACH_NLRI builder one is made with the next hop `Ipv6LL(::, addr)`; a
-held IPv6 (or IPv6 + link-local) next hop becomes `Ipv6LL`; any other held next
-hop is refused with `IllegalCombination` (before the fix: `unreachable!()`);
-`none` is the `Err` -/
+held `Unicast(V6)` (or `Ipv6LL`) next hop becomes `Ipv6LL`; any other held next
+hop - `Multicast(V6)` included, update_builder.rs:185-188 - is refused with
+`IllegalCombination` (before the fix: `unreachable!()`); `none` is the `Err` -/
 def setNexthopLl (b : B N) : Option (B N) :=
   match b.ann with
   | none => some { b with ann := some ([], .ll) }
